@@ -256,10 +256,15 @@ impl Family for A2 {
     fn properties(&self) -> &'static [&'static str] {
         &["C10", "C04", "C07"]
     }
-    fn budget(&self, tier: Tier, _p: &str) -> u64 {
-        match tier {
-            Tier::Quick => 1500,
-            Tier::Thorough => 60000,
+    fn budget(&self, tier: Tier, p: &str) -> u64 {
+        let q = match p {
+            "C10" => 1500,
+            "C04" => 700,
+            _ => 300,
+        };
+        q * match tier {
+            Tier::Quick => 1,
+            Tier::Thorough => 40,
         }
     }
     fn generate(&self, rng: &mut Rng, tier: Tier, _idx: u64) -> Scn {
